@@ -266,11 +266,9 @@ class C12(Spec):
                     left = n
                     while left > 0:
                         k = min(left, rng.choice([0, 1, 1, 2, 2, 3, 4, 5, 7, 11, 19]))
-                        if k == 0 and stage in LFILTER:
-                            continue      # see known finding C12-lfilter-empty-chunk
                         parts.append(k)
                         left -= k
-                    if rng.random() < 0.2 and stage not in LFILTER:
+                    if rng.random() < 0.2:
                         parts.append(0)
                     yield self._mk(stage, arr, n, parts, p1, p2, rng.choice([0, 0, 6, 12, 35]), rng.randrange(10 ** 6))
         # (c) boundary-targeted: a chunk edge at every offset around multiples of the parameter
@@ -300,9 +298,13 @@ class C12(Spec):
                     if len(parts) > 1:
                         gaps[rng.randrange(1, len(parts))] = rng.choice([-2, -1, 1, 3])
                     yield self._mk(stage, arr, n, parts, p1, p2, 6, rng.randrange(10 ** 6), gaps)
-        # (d') the recorded finding: an empty chunk in front of more data corrupts the carried lfilter state
-        for stage, arr in (('iirfilter', '1d'), ('decimate', 'pd2')):
-            yield self._mk(stage, arr, 12, [4, 0, 8], 2, 1, 0, 7)
+        # (d') regression for the former finding C12-lfilter-empty-chunk (repaired by notes/C12_fix_5.diff):
+        # scipy's lfilter reports a garbage final state for an empty chunk; the stages must not adopt it
+        for stage in LFILTER:
+            for arr in arr_kinds(stage):
+                yield self._mk(stage, arr, 12, [4, 0, 8], 2, 1, 0, 7)
+                yield self._mk(stage, arr, 9, [1, 0, 0, 3, 0, 5, 0], 3, 1, 6, 3)
+        yield self._mk('decimate', 'pd1', 7, [0, 2, 0, 5], 2, 1, 0, 5)
         # (e) event_rate
         span = 9 if quick else 12
         pairs = [(3, 2)] if quick else [(3, 2), (4, 4), (2, 3)]
@@ -643,13 +645,9 @@ class C12(Spec):
         return len(c['chunks']) >= 2 and any(l.startswith('ok ') and l != 'ok -' for l in out[1:])
 
     def known(self, c, failure):
-        # scipy.signal.lfilter returns a corrupt final state zf for an empty input array, so an empty
-        # chunk followed by more data makes iirfilter / decimate continue from a wrong filter state.
-        if (c['kind'] in LFILTER and 0 in c['chunks'][:-1] and not any(c.get('gaps') or [])
-                and 'differs from the whole-signal computation' in failure):
-            first_empty = c['chunks'].index(0)
-            if sum(c['chunks'][first_empty:]) > 0:
-                return 'C12-lfilter-empty-chunk'
+        # No recorded finding is left for C12: the former C12-lfilter-empty-chunk (iirfilter / decimate adopting
+        # the garbage final state scipy's lfilter reports for an empty chunk) is repaired by
+        # notes/C12_fix_5.diff and is a plain VIOLATION on a tree without that guard.
         return None
 
     # ------------------------------------------------------------------ search
